@@ -257,12 +257,13 @@ pub struct RunResult {
     pub value: Option<Value>,
     pub detail: String,
     pub log: Option<Vec<i64>>,
+    pub watched: Vec<(String, Option<Value>)>,
 }
 
 /// Parse and run one rendered program with the hooks on.
-pub fn run_program(text: &str, stdlib: bool, fuel: u64, rec: Option<Rc<RefCell<Recorder>>>) -> RunResult {
+pub fn run_program(text: &str, stdlib: bool, fuel: u64, rec: Option<Rc<RefCell<Recorder>>>, watch: &[String]) -> RunResult {
     let mut interp = if stdlib { Interpreter::with_stdlib() } else { Interpreter::without_stdlib() };
-    let mut res = RunResult { text: text.to_string(), parse: "ok".into(), static_type: None, status: String::new(), value: None, detail: String::new(), log: None };
+    let mut res = RunResult { text: text.to_string(), parse: "ok".into(), static_type: None, status: String::new(), value: None, detail: String::new(), log: None, watched: vec![] };
     let code = match catch(|| Code::parse(&interp, text)) {
         Err(p) => {
             res.parse = "panic".into();
@@ -310,6 +311,10 @@ pub fn run_program(text: &str, stdlib: bool, fuel: u64, rec: Option<Rc<RefCell<R
             }
         }
     }
+    for name in watch {
+        let mut ids = Ids::default();
+        res.watched.push((name.clone(), interp.get_variable(name).map(|v| value_to_wire(v, &mut ids, 0))));
+    }
     if let Some(Variable::Mut(cell)) = interp.get_variable("log") {
         if let Ok(g) = cell.variable.try_read() {
             if let Variable::Array(a) = &*g {
@@ -331,6 +336,7 @@ pub fn run(args: &[String]) -> Value {
     let mut n_events_raw = 0u64;
     let mut n_events = 0u64;
     let mut distinct: HashSet<String> = HashSet::new();
+    let mut seen_events: HashSet<String> = HashSet::new();
     for case in &cases {
         let suite = case["suite"].as_str().unwrap_or("?").to_string();
         *by_suite.entry(suite.clone()).or_insert(0) += 1;
@@ -345,11 +351,16 @@ pub fn run(args: &[String]) -> Value {
         };
         distinct.insert(text.clone());
         let rec = Rc::new(RefCell::new(Recorder::default()));
-        let r = run_program(&text, case["std"].as_bool().unwrap_or(false), fuel, Some(rec.clone()));
+        let watch: Vec<String> = case["watch"].as_array().map(|w| w.iter().map(|x| x["n"].as_str().unwrap().to_string()).collect()).unwrap_or_default();
+        let r = run_program(&text, case["std"].as_bool().unwrap_or(false), fuel, Some(rec.clone()), &watch);
         let rec = Rc::try_unwrap(rec).ok().map(RefCell::into_inner).unwrap_or_default();
         n_events_raw += rec.raw;
         if let Some(w) = &mut events_out {
             for ev in &rec.events {
+                // identical events of different runs are judged once (the judgement is a function of the event)
+                if !seen_events.insert(ev.to_string()) {
+                    continue;
+                }
                 let mut ev = ev.clone();
                 ev["case"] = case["id"].clone();
                 writeln!(w, "{}", ev).unwrap();
@@ -372,6 +383,26 @@ pub fn run(args: &[String]) -> Value {
         if exp_status == "inconclusive" || r.status == "budget" {
             *counts.entry("inconclusive".into()).or_insert(0) += 1;
             continue;
+        }
+        if matches!(r.status.as_str(), "value" | "error") {
+            if let Some(ws) = case["watch"].as_array() {
+                for (w, (name, got)) in ws.iter().zip(r.watched.iter()) {
+                    let spec_v = &w["v"];
+                    match (k(spec_v) != "none", got) {
+                        (true, Some(g)) => {
+                            let mut diffs = vec![];
+                            diff_value(spec_v, g, name, &mut diffs);
+                            diffs.retain(|d| !d.contains(": TAG "));
+                            if !diffs.is_empty() {
+                                bad("watch", diffs.join("; "), &mut mm);
+                            }
+                        }
+                        (true, None) => bad("watch", format!("{name} is not bound after the run"), &mut mm),
+                        (false, Some(_)) => bad("watch", format!("{name} is bound after the run but the specification never binds it"), &mut mm),
+                        (false, None) => {}
+                    }
+                }
+            }
         }
         match r.status.as_str() {
             "parse-panic" => bad("parse-panic", r.detail.clone(), &mut mm),
